@@ -155,7 +155,7 @@ def _bytes_chunk(items):
                     nruns += 1
                     if 'other_error' in got:
                         msg = got['other_error']
-                        rec = {'ioerr': ('decode' in msg and not msg.startswith('RAW')), 'other': msg.startswith('RAW') or 'decode' not in msg,
+                        rec = {'ioerr': msg.startswith('IOERR'), 'other': not msg.startswith('IOERR'),
                                'result': {'recs': [], 'bom': False, 'firstdef': 0, 'ragged': [], 'err': False, 'errnr': 0, 'errnl': 0}, 'msg': msg}
                     else:
                         got = dict(got)
